@@ -3,10 +3,13 @@
 package main
 
 import (
+	"github.com/vulcand/oxy/v2/zverif/c01"
 	"github.com/vulcand/oxy/v2/zverif/c04"
 )
 
 func init() {
+	parts["c01s"] = c01.RunSched
+	finders["c01s"] = c01.Find
 	parts["c04"] = c04.Run
 	finders["c04"] = c04.Find
 }
